@@ -241,7 +241,7 @@ theorem NoRelW.table0 {w : World} (h : NoRelW w) {a : Nat} {A : Archetype}
 
 /-- what the archetype list of an uncached query looks like: all archetypes, or (typed filter)
     those of the component index entry of one component of the filter -/
-theorem archList_facts {w : World} (hci : CIdx w) (f : Filter) (rare : Option Comp)
+theorem archList_facts {w : World} (hci : CIdxH w) (f : Filter) (rare : Option Comp)
     (hrare : ∀ (c : Comp), rare = some c → c < w.kinds.length ∧ f.mask.get c = true) :
     (∀ (a : Nat), a ∈ w.archList rare → a < w.archetypes.length) ∧ (w.archList rare).Nodup ∧
     (∀ (a : Nat), a < w.archetypes.length → f.matchesMask (w.arch a).mask = true →
@@ -261,7 +261,7 @@ theorem archList_facts {w : World} (hci : CIdx w) (f : Filter) (rare : Option Co
 
 /-- **the uncached counting walk in the fragment** selects exactly the `Selected` tables, each
     once -/
-theorem uncached_selected {w : World} (hn : NoRelW w) (hR : RInv w) (hci : CIdx w) (q : QueryObj)
+theorem uncached_selected {w : World} (hn : NoRelW w) (hR : RInv w) (hci : CIdxH w) (q : QueryObj)
     (hq : q.cacheTables = none)
     (hrare : ∀ (c : Comp), q.rare = some c → c < w.kinds.length ∧ q.filter.mask.get c = true) :
     ∃ (ts : List Nat), qSelected w q = some ts ∧ ts.Nodup ∧
